@@ -112,7 +112,8 @@ pub enum BadReq {
     BadTtl { topic: String, ttl: String },
     BadContext { topic: String, ctx: String },
     /// 0 = not base64, 1 = base64 of invalid UTF-8, 2 = base64 of invalid JSON,
-    /// 3 = raw non-ASCII header bytes
+    /// 3 = raw non-ASCII header bytes, 4..6 = base64 of JSON whose string literals
+    /// hold invalid UTF-8
     BadMeta { topic: String, kind: u8, with_body: bool },
     BadReadQuery { q: String, sse: bool },
     BadHeadContext { topic: String, ctx: String },
@@ -614,7 +615,7 @@ pub fn bad_req(_p: &Profile) -> BoxedStrategy<BadReq> {
         3 => (any::<bool>(), sel(BAD_IDS)).prop_map(|(delete, id)| BadReq::BadId { delete, id }),
         3 => (topic_http_safe(), sel(BAD_TTLS)).prop_map(|(topic, ttl)| BadReq::BadTtl { topic, ttl }),
         2 => (topic_http_safe(), sel(BAD_CTXS)).prop_map(|(topic, ctx)| BadReq::BadContext { topic, ctx }),
-        4 => (topic_http_safe(), 0u8..4, any::<bool>())
+        5 => (topic_http_safe(), 0u8..7, any::<bool>())
             .prop_map(|(topic, kind, with_body)| BadReq::BadMeta { topic, kind, with_body }),
         3 => (sel(BAD_READ_QUERIES), any::<bool>()).prop_map(|(q, sse)| BadReq::BadReadQuery { q, sse }),
         2 => (topic_http_safe(), sel(BAD_CTXS)).prop_map(|(topic, ctx)| BadReq::BadHeadContext { topic, ctx }),
@@ -1561,7 +1562,11 @@ impl Interp {
                     0 => b"@@not-base64@@".to_vec(),
                     1 => b64(&[0xff, 0xfe, 0xfd]).into_bytes(),
                     2 => b64(b"{not json").into_bytes(),
-                    _ => vec![0xff, 0xfe],
+                    3 => vec![0xff, 0xfe],
+                    // invalid UTF-8 *inside* a JSON string literal: still not UTF-8
+                    4 => b64(b"{\"k\":\"\xff\"}").into_bytes(),
+                    5 => b64(b"{\"k\":\"ab\xe6\x97\"}").into_bytes(),
+                    _ => b64(b"[\"\xc3\x28\", 1]").into_bytes(),
                 };
                 let r = Req::new("POST", &format!("/{topic}")).header("xs-meta", &value);
                 if *with_body {
